@@ -17,6 +17,12 @@ const LO: [MO; 3] = [MO::Acq, MO::Rlx, MO::Sc];
 const SO: [MO; 3] = [MO::Rel, MO::Rlx, MO::Sc];
 
 pub fn await_prog(s: &mut Src, never: bool) -> Program {
+    await_prog2(s, never, false)
+}
+
+/// `yields`: unconditional yields (do-while loops `loop { yield; if cond { break } }` and bare
+/// yields) are placed in the waiter; the caller makes every access SeqCst.
+pub fn await_prog2(s: &mut Src, never: bool, yields: bool) -> Program {
     // locations: 0,1 = flags, 2 = data
     let two = s.chance(1, 2);
     let spin = s.chance(1, 2);
@@ -42,8 +48,18 @@ pub fn await_prog(s: &mut Src, never: bool) -> Program {
     if s.chance(1, 3) {
         waiter.push(Op::Load { a: 2, o: s.of(&LO) });
     }
-    // (no do-while form: an unconditional yield_now means "cannot progress until another thread ran" and
-    // "do not show me again what I saw before" to loom - a documented semantic change, not a loop)
+    // do-while form (`loop { yield; if cond { break } }`)
+    let do_while = yields;
+    if do_while {
+        if s.chance(1, 2) {
+            waiter.push(Op::Load { a: 3, o: s.of(&LO) });
+            let at = s.pick(w.len() + 1);
+            w.insert(at, Op::Store { a: 3, v: 1, o: s.of(&SO) });
+        }
+        if s.chance(3, 4) {
+            waiter.push(Op::Yield);
+        }
+    }
     waiter.push(Op::Await { a: 0, v: 1, o: s.of(&LO), spin });
     if s.chance(2, 3) {
         waiter.push(Op::Load { a: 2, o: s.of(&LO) });
@@ -51,6 +67,9 @@ pub fn await_prog(s: &mut Src, never: bool) -> Program {
     if two {
         if s.chance(1, 2) {
             waiter.push(Op::Load { a: 1, o: s.of(&LO) });
+        }
+        if do_while && s.chance(1, 2) {
+            waiter.push(Op::Yield);
         }
         waiter.push(Op::Await { a: 1, v: 1, o: s.of(&LO), spin: s.chance(1, 2) });
         waiter.push(Op::Load { a: 2, o: s.of(&LO) });
@@ -92,11 +111,27 @@ pub fn await_prog(s: &mut Src, never: bool) -> Program {
     Program { threads, rx_owner: 0, arc_owner: vec![] }
 }
 
+fn all_sc(p: &mut Program) {
+    for th in p.threads.iter_mut() {
+        th.retain(|o| !matches!(o, Op::Fence { .. }));
+        for op in th.iter_mut() {
+            match op {
+                Op::Load { o, .. } | Op::Store { o, .. } | Op::Await { o, .. } => *o = MO::Sc,
+                _ => {}
+            }
+        }
+    }
+}
+
 pub fn build(draws: &[u16], tier: Tier) -> Case {
     let mut s = Src::new(draws);
     let never = s.chance(1, 8);
-    let prog = await_prog(&mut s, never);
-    let mut c = Case::new("C18", if never { "never-true" } else { "await" }, prog);
+    let dw = !never && s.chance(1, 3);
+    let mut prog = await_prog2(&mut s, never, dw);
+    if dw {
+        all_sc(&mut prog);
+    }
+    let mut c = Case::new("C18", if never { "never-true" } else if dw { "do-while-sc" } else { "await" }, prog);
     c.cfg.max_permutations = Some(tier.iter_cap());
     c.cfg.max_branches = if never { 300 } else { 4000 };
     c
@@ -111,6 +146,9 @@ pub fn eval(case: &Case) -> Verdict {
     let mut v = Verdict::pass();
     if let Err(e) = p.well_formed() {
         return Verdict::skip(&format!("ill-formed: {}", e));
+    }
+    if p.has(|o| matches!(o, Op::Yield)) {
+        return eval_sc(case);
     }
     if !refax::supports(p) {
         return Verdict::skip("outside R-AX fragment");
@@ -174,6 +212,86 @@ pub fn eval(case: &Case) -> Verdict {
         let w = br.a.witness.get(*m).cloned().unwrap_or_default();
         v.detail["missing"] = serde_json::json!(missing.iter().map(|o| fmt_outcome(o)).collect::<Vec<_>>());
         return v.fail("missing_outcome", format!("an exit outcome of the loop is never explored: {} (witness: {}); {} of {} missing", fmt_outcome(m), w, missing.len(), a_op.len()));
+    }
+    v
+}
+
+/// All-SeqCst programs with unconditional yields (do-while loops).
+///
+/// May-direction: `L(P) ⊆ U(P)` as for the other families (loom documents that it treats SeqCst
+/// accesses as acquire/release, so the interleaving reference is not an upper bound).
+/// Must-direction, only when exactly one other thread can run while the waiter is alive (so that
+/// the documented yield semantics - "another thread needs to be scheduled in order for the current
+/// one to make progress" - leaves no choice of who makes progress): `Ry(P) ⊆ L(P)`, Ry = all
+/// interleavings in which the yielding thread sits out the next scheduling decision when another
+/// thread can run (scheduling a thread that has not started yet takes it to its first operation).
+fn eval_sc(case: &Case) -> Verdict {
+    let p = &case.prog;
+    let mut v = Verdict::pass();
+    let all_sc = !p.has(|o| match o {
+        Op::Load { o, .. } | Op::Store { o, .. } | Op::Await { o, .. } => *o != MO::Sc,
+        Op::Fence { .. } => true,
+        _ => false,
+    });
+    if !all_sc {
+        return Verdict::skip("unconditional yields are only decided for all-SeqCst programs");
+    }
+    if !refax::supports(p) {
+        return Verdict::skip("outside R-AX fragment");
+    }
+    let br = refax::bracket(p, 30_000_000);
+    let mut opts = crate::refsc::Opts::new();
+    opts.max_states = 2_000_000;
+    opts.yield_sem = true;
+    let r = crate::refsc::explore(p, opts);
+    if r.truncated || br.u.truncated {
+        return Verdict::skip("reference budget");
+    }
+    v.ref_states = (r.states + br.u.execs) as u64;
+    let run = interp::collect(p, &case.cfg, false);
+    v.loom_iters = run.report.iters as u64;
+    if run.report.capped {
+        return Verdict::skip("capped");
+    }
+    let l: BTreeSet<Outcome> = run.outcomes.keys().cloned().collect();
+    // threads that run operations concurrently with the waiter
+    let waiter = p.threads.iter().position(|t| t.iter().any(|o| matches!(o, Op::Yield | Op::Await { .. }))).unwrap_or(0);
+    let others = (0..p.n_threads())
+        .filter(|&t| t != waiter)
+        .filter(|&t| {
+            // main only spawning, joining and reading after the joins does not count
+            let ops = &p.threads[t];
+            let first_join = ops.iter().position(|o| matches!(o, Op::Join { .. })).unwrap_or(ops.len());
+            ops[..first_join].iter().any(|o| !matches!(o, Op::Spawn { .. }))
+        })
+        .count();
+    let must = others == 1;
+    v.label(&format!("threads{}", p.n_threads()));
+    v.label("do_while");
+    v.label(if must { "do_while_must" } else { "do_while_may_only" });
+    v.label(&format!("awaits{}", p.count(|o| matches!(o, Op::Await { .. }))));
+    v.detail = serde_json::json!({"U": set_str(&br.u.outcomes), "Ry": set_str(&r.outcomes), "L": set_str(&l), "must_direction": must,
+        "reference": "R-AX U / R-SC with yield semantics", "loom": {"iterations": run.report.iters, "panic": run.report.panic}});
+    v.nontrivial = r.outcomes.len() >= 2;
+    if br.u.outcomes.is_empty() || r.outcomes.is_empty() || r.deadlock {
+        return Verdict::skip("reference: the awaited value is not written in every execution");
+    }
+    if let Some(m) = &run.report.panic {
+        let k = panic_kind(m);
+        return v.fail(
+            if k == "branch_limit" { "branch_limit_hit" } else { "unexpected_panic" },
+            format!("the awaited value is written in every execution but the run panicked with `{}`", m),
+        );
+    }
+    if let Some(x) = l.iter().find(|x| !br.u.outcomes.contains(*x)) {
+        return v.fail("forbidden_outcome", format!("values read around the loop that C11/RC11 forbids: {}", fmt_outcome(x)));
+    }
+    if must {
+        let missing: Vec<&Outcome> = r.outcomes.iter().filter(|x| !l.contains(*x)).collect();
+        if let Some(m) = missing.first() {
+            v.detail["missing"] = serde_json::json!(missing.iter().map(|o| fmt_outcome(o)).collect::<Vec<_>>());
+            return v.fail("missing_outcome", format!("an exit outcome of the do-while loop is never explored: {}; {} of {} missing", fmt_outcome(m), missing.len(), r.outcomes.len()));
+        }
     }
     v
 }
